@@ -885,6 +885,23 @@ def inline_pure_helpers(repo: 'Repo', rel: str, cls: Optional[str], fn: FuncNode
     return relink(ast.fix_missing_locations(new))
 
 
+def cascade_value(stmts: List[ast.stmt]) -> Optional[ast.expr]:
+    """the value of a statement list that does nothing but choose what to return - `if T: return A` (an else branch of the same
+    kind allowed) ... `return B` - as one conditional expression `A if T else ... B`; None for any other shape."""
+    if not stmts:
+        return None
+    st = stmts[0]
+    if isinstance(st, ast.Return) and st.value is not None:
+        return st.value
+    if isinstance(st, ast.If):
+        a = cascade_value(st.body)
+        b = cascade_value(st.orelse) if st.orelse else cascade_value(stmts[1:])
+        if a is None or b is None:
+            return None
+        return ast.IfExp(test=st.test, body=a, orelse=b)
+    return None
+
+
 def expand_private_calls(repo: 'Repo', rel: str, fn: FuncNode, cls: Optional[str] = None, *, depth: int = 2,
                          keep: Sequence[str] = ()) -> FuncNode:
     """a copy of fn in which statement-level calls of PRIVATE helpers defined in the same class / module (`self._h(a, b)`,
@@ -908,7 +925,7 @@ def expand_private_calls(repo: 'Repo', rel: str, fn: FuncNode, cls: Optional[str
         return not any(isinstance(x, (ast.Await, ast.Yield, ast.NamedExpr)) or
                        (isinstance(x, ast.Call) and dotted(x.func) not in ('len', 'int', 'bool', 'hex', 'abs', 'min', 'max')) for x in ast.walk(e))
 
-    def bind(h: FuncNode, call: ast.Call) -> Optional[Dict[str, ast.expr]]:
+    def bind(h: FuncNode, call: ast.Call, as_value: bool = False) -> Optional[Dict[str, ast.expr]]:
         params = [a.arg for a in h.args.args]
         if params and params[0] == 'self':
             params = params[1:]
@@ -920,8 +937,27 @@ def expand_private_calls(repo: 'Repo', rel: str, fn: FuncNode, cls: Optional[str
         for k in call.keywords:
             if k.arg in params:
                 b[k.arg] = k.value
-        if set(b) != set(params) or not all(pure(v) for v in b.values()):
+        if set(b) != set(params):
             return None
+        if not all(pure(v) for v in b.values()):
+            # an argument with a call in it may be substituted only where it is evaluated at most once on every path and
+            # nothing else is: a helper that merely chooses what to return (cascade_value), each path reading the parameter once
+            hb0 = [x for x in h.body if not (isinstance(x, ast.Expr) and isinstance(x.value, ast.Constant))]
+            val = cascade_value(hb0)
+            if val is None or not as_value:
+                return None
+            def paths(e: ast.expr) -> List[List[ast.expr]]:
+                if isinstance(e, ast.IfExp):
+                    return [[e.test] + p_ for p_ in paths(e.body)] + [[e.test] + p_ for p_ in paths(e.orelse)]
+                return [[e]]
+            for pname, v in b.items():
+                if pure(v):
+                    continue
+                for path in paths(val):
+                    if sum(1 for e in path for x in ast.walk(e) if isinstance(x, ast.Name) and x.id == pname) > 1:
+                        return None
+            if any(isinstance(x, ast.Call) for e in [val] for x in ast.walk(e)):
+                return None
         # a parameter that the helper re-binds cannot be substituted
         for x in ast.walk(h):
             if isinstance(x, ast.Name) and isinstance(x.ctx, ast.Store) and x.id in b:
@@ -961,7 +997,7 @@ def expand_private_calls(repo: 'Repo', rel: str, fn: FuncNode, cls: Optional[str
                     hd.body = expand(hd.body, level)
             call = st.value if isinstance(st, (ast.Expr, ast.Return, ast.Assign)) and isinstance(getattr(st, 'value', None), ast.Call) else None
             h = helper_of(call) if call is not None and level > 0 else None
-            b = bind(h, call) if h is not None and call is not None else None
+            b = bind(h, call, isinstance(st, ast.Assign)) if h is not None and call is not None else None
             if h is None or b is None:
                 out.append(st)
                 continue
@@ -972,6 +1008,10 @@ def expand_private_calls(repo: 'Repo', rel: str, fn: FuncNode, cls: Optional[str
                 out.extend(expand(hb, level - 1))
             elif isinstance(st, ast.Assign) and len(hb) == 1 and isinstance(hb[0], ast.Return) and hb[0].value is not None:
                 st.value = hb[0].value
+                out.append(st)
+            elif isinstance(st, ast.Assign) and cascade_value(hb) is not None:
+                # `x = _h(..)` with `if T: return A` ... `return B`: the conditional expression it computes
+                st.value = cascade_value(hb)            # type: ignore[assignment]
                 out.append(st)
             elif isinstance(st, ast.Assign) and len(hb) > 1 and isinstance(hb[-1], ast.Return) and hb[-1].value is not None and only_tail_return(h):
                 # `x = self._h(..)` with a straight helper ending in `return E`: the helper's statements, then `x = E`
@@ -1035,9 +1075,22 @@ def comprehension_or_loop(fn: FuncNode) -> List[Tuple[ast.expr, ast.expr, Option
         if isinstance(n, ast.ListComp) and len(n.generators) == 1 and not n.generators[0].ifs:
             g = n.generators[0]
             out.append((g.iter, n.elt, norm(g.target)))
-        if isinstance(n, ast.For) and len(n.body) == 1 and isinstance(n.body[0], ast.Expr) and isinstance(n.body[0].value, ast.Call) \
-                and dotted(n.body[0].value.func).endswith('.append') and len(n.body[0].value.args) == 1 and not n.orelse:
-            out.append((n.iter, n.body[0].value.args[0], norm(n.target)))
+        if isinstance(n, ast.For) and not n.orelse:
+            body = inline_block(list(n.body))          # named temporaries of the loop body are substituted (also call-valued, single use)
+            if len(body) == 2 and isinstance(body[0], ast.Assign) and len(body[0].targets) == 1 and isinstance(body[0].targets[0], ast.Name):
+                # `t = E1; acc.append(f(t))` with t used once: read as acc.append(f(E1))
+                t = body[0].targets[0].id
+                uses = [x for x in ast.walk(body[1]) if isinstance(x, ast.Name) and x.id == t and isinstance(x.ctx, ast.Load)]
+                if len(uses) == 1:
+                    val = body[0].value
+
+                    class S(ast.NodeTransformer):
+                        def visit_Name(self, node: ast.Name) -> ast.AST:
+                            return clone(val) if isinstance(node.ctx, ast.Load) and node.id == t else node
+                    body = [S().visit(clone(body[1]))]
+            if len(body) == 1 and isinstance(body[0], ast.Expr) and isinstance(body[0].value, ast.Call) \
+                    and dotted(body[0].value.func).endswith('.append') and len(body[0].value.args) == 1:
+                out.append((n.iter, body[0].value.args[0], norm(n.target)))
     return out
 
 
